@@ -17,7 +17,7 @@ import (
 )
 
 const rule = "cases = (route set spread over GET/POST/PATCH/OPTIONS/custom FOO with per-route trailing-slash options, one of the four (method-not-allowed, auto-OPTIONS) combinations, " +
-	"request with any of those methods or an unknown one, incl. 'OPTIONS *'); distinct by (route set, options, request); non-trivial when the request is unserved and at least one other method has a route for that host and path (directly or slash-adjusted)"
+	"request with any of those methods or an unknown one, incl. 'OPTIONS *'; a third of the cases after delete churn that also adds and removes routes of verbs PUT/DELETE/BAR); distinct by (route set, options, request); non-trivial when the request is unserved and at least one other method has a route for that host and path (directly or slash-adjusted)"
 
 func main() {
 	run := kit.Start("C11", rule)
@@ -31,7 +31,7 @@ func main() {
 		check(run, c)
 		return
 	}
-	sets := run.Pick(3000, 80000)
+	sets := run.Pick(3000, 600000)
 	const per = 50
 	run.Parallel(sets/per, func(batch int) {
 		r := run.Rand(uint64(batch))
